@@ -16,6 +16,9 @@ import (
 	"time"
 )
 
+// MaxFragmentSize is the largest downstream fragment a client may ask for (a DNS message cannot exceed 64 KiB)
+const MaxFragmentSize = 16384
+
 var ConnectionTimeout = 5 * time.Minute          // ConnectionTimeout specifies that connections will timeout 2 minutes after we've seen the last contact from the user
 var OldConnectionTimeout = 6 * ConnectionTimeout // Old connections will also timeout after a certain time
 
@@ -320,7 +323,10 @@ func (s *ServerDnsListener) setOptionsRequest(v *commands.SetOptionsRequest, m *
 			logString += ", downenc=%v"
 			logData = append(logData, v.DownstreamEncoder)
 		}
-		if v.DownstreamFragmentSize != nil {
+		if v.DownstreamFragmentSize != nil && (*v.DownstreamFragmentSize == 0 || *v.DownstreamFragmentSize > MaxFragmentSize) {
+			// a fragment size of zero would make every write spin on empty packets
+			resp.Err = commands.BadFrag
+		} else if v.DownstreamFragmentSize != nil {
 			user.Serializer.Downstream.FragmentSize = *v.DownstreamFragmentSize
 			logString += ", downfrag=%v"
 			logData = append(logData, *v.DownstreamFragmentSize)
@@ -345,6 +351,9 @@ func (s *ServerDnsListener) testDownstreamFragmentSize(v *commands.TestDownstrea
 	u, err := s.validateAndGetUser(v.UserId, remoteAddr)
 	if err != nil {
 		resp.Err = err
+	} else if v.FragmentSize > MaxFragmentSize {
+		// never let a request decide how much memory and time we spend on an answer that cannot be sent anyway
+		resp.Err = commands.BadFrag
 	} else {
 		resp.Data = make([]byte, v.FragmentSize)
 		v := byte(107)
